@@ -185,6 +185,11 @@ static struct root roots[] = {
     { "DepMid", C4_DepMid_parse_json_as_root, C4_DepMid_verify_as_root_with_identifier, C4_DepMid_verify_as_root_with_identifier_and_size },
     { "DepLast", C4_DepLast_parse_json_as_root, C4_DepLast_verify_as_root_with_identifier, C4_DepLast_verify_as_root_with_identifier_and_size },
     { "DepOnly", C4_DepOnly_parse_json_as_root, C4_DepOnly_verify_as_root_with_identifier, C4_DepOnly_verify_as_root_with_identifier_and_size },
+    { "Tiny", C4_Tiny_parse_json_as_root, C4_Tiny_verify_as_root_with_identifier, C4_Tiny_verify_as_root_with_identifier_and_size },
+    { "S1", C4_S1_parse_json_as_root, C4_S1_verify_as_root_with_identifier, C4_S1_verify_as_root_with_identifier_and_size },
+    { "S2", C4_S2_parse_json_as_root, C4_S2_verify_as_root_with_identifier, C4_S2_verify_as_root_with_identifier_and_size },
+    { "S2s", C4_S2s_parse_json_as_root, C4_S2s_verify_as_root_with_identifier, C4_S2s_verify_as_root_with_identifier_and_size },
+    { "S3", C4_S3_parse_json_as_root, C4_S3_verify_as_root_with_identifier, C4_S3_verify_as_root_with_identifier_and_size },
     { "Fix", C4_Fix_parse_json_as_root, C4_Fix_verify_as_root_with_identifier, C4_Fix_verify_as_root_with_identifier_and_size },
     { 0, 0, 0, 0 }
 };
